@@ -60,7 +60,8 @@ def gen_value(rng, kind):
 class Writer:
     """Independent writer of rpc/encoded replies with optional out-lining."""
 
-    def __init__(self, rng, outline_prob, share, id_style, placement, marked):
+    def __init__(self, rng, outline_prob, share, id_style, placement, marked, untyped=0.0):
+        self.untyped = untyped
         self.rng = rng
         self.p = outline_prob
         self.share = share
@@ -104,7 +105,10 @@ class Writer:
                 self.multirefs.append('<multiRef id="%s"%s%s>%s</multiRef>' % (rid, root, self.type_attrs(v), self.content(v)))
             self.outlined += 1
             return '<%s href="#%s"/>' % (name, rid)
-        return "<%s%s>%s</%s>" % (name, self.type_attrs(v), self.content(v), name)
+        ta = self.type_attrs(v)
+        if name == "item" and v[0] != "array" and self.rng.random() < self.untyped:
+            ta = ""       # untyped array item: its type comes from the enclosing arrayType
+        return "<%s%s>%s</%s>" % (name, ta, self.content(v), name)
 
     def envelope(self, v, dangling=False):
         resp = '<m:fResponse xmlns:m="%s">%s%s</m:fResponse>' % (
@@ -191,8 +195,8 @@ def run(ctx):
         for _k in range(ctx.pick(4, 8)):
             marked = rng.random() < 0.7
             placement = "after" if rng.random() < (0.85 if not marked else 0.6) else "before"
-            wtr = Writer(rng, rng.choice([0.2, 0.5, 0.9]), rng.random() < 0.5, rng.choice(["num", "guid", "plain"]),
-                         placement, marked)
+            wtr = Writer(rng, rng.choice([0.0, 0.2, 0.5, 0.9]), rng.random() < 0.5, rng.choice(["num", "guid", "plain"]),
+                         placement, marked, untyped=rng.choice([0.0, 0.5, 1.0]))
             dangling = rng.random() < 0.1
             doc = wtr.envelope(v, dangling)
             meta = {"kind": kind, "value": repr(v)[:400], "doc": doc.decode("utf-8"), "marked": marked,
